@@ -197,7 +197,7 @@ pub fn chunking<S: Src, const N: usize, const C: usize, const B: usize>(s: &mut 
     let mut got = 0usize; // records returned so far
     let mut pos = 0usize; // bytes covered by returned records
     let mut stopped_early = false;
-    let mut consulted_at_chunk_end = false;
+    let mut boundary_with_more = false;
     let probe = s.usize(); // one symbolic byte position per record stands for all of them
     let mut a = 0usize;
     while a < N {
@@ -225,13 +225,15 @@ pub fn chunking<S: Src, const N: usize, const C: usize, const B: usize>(s: &mut 
                 break;
             }
         }
+        if pos == b && b < N && st[b] != 0 {
+            // every delivered byte consumed exactly at a read boundary while another record follows: the place
+            // where "nothing buffered" must not be mistaken for the end marker
+            boundary_with_more = true;
+        }
         if proto == Proto::LogScan && reader.is_empty() {
             // the consumer treats this as end-of-log: legitimate only if the stream really has a zero
             // length (or nothing at all) at the position reached
             let at_end = pos >= N || st[pos] == 0;
-            if pos == b {
-                consulted_at_chunk_end = true;
-            }
             if !at_end {
                 stopped_early = true;
                 if pos == b {
@@ -245,7 +247,7 @@ pub fn chunking<S: Src, const N: usize, const C: usize, const B: usize>(s: &mut 
     vcover!(s, o.n >= 2, "at least two complete records");
     vcover!(s, o.n >= 1 && o.stop < N && st[o.stop] == 0, "records then zero length then stale tail");
     vcover!(s, o.n >= 2 && o.end[0] == C, "record ends exactly at chunk end and another follows");
-    vcover!(s, consulted_at_chunk_end, "is_empty() consulted with every delivered byte consumed");
+    vcover!(s, boundary_with_more, "every delivered byte consumed at a read boundary while another record follows");
     vcheck!(s, !stopped_early, "end-of-stream reported although a non-zero length follows (stops earlier than the first zero length)");
     if !stopped_early {
         vcheck!(s, got == o.n, "number of records differs from reference decoder");
